@@ -870,3 +870,200 @@ Proof. vm_compute. repeat split. Qed.
 Print Assumptions surv_proto_law.
 Print Assumptions xsurv_proto_law.
 Print Assumptions xresp_proto_law.
+
+(* ================================================================== *)
+(* Part 2: after the close sequence the protocol owns nothing but queue contents
+   that its fini functions free (Ledger/LedgerThms.v: drained) *)
+From Coq Require Import Permutation.
+From NngV Require Import Ledger.LedgerThms.
+
+(* the operations of a close sequence *)
+Definition closing (o : pop) : bool :=
+  match o with PPipeClose _ | PSendDone _ _ | PCtxClose _ | PSockClose => true | _ => false end.
+
+Section CloseGeneric.
+  Context {St : Type} (step : St -> pop -> St * list pout).
+
+  Lemma run_app a : forall b s, run step s (a ++ b) = run step (run step s a) b.
+  Proof. induction a as [|o a IH]; intros b s; cbn [app run]; [reflexivity|apply IH]. Qed.
+  Lemma ops_ok_closing (ok : St -> pop -> Prop) :
+    (forall s o, closing o = true -> ok s o) -> forall ops s, forallb closing ops = true -> ops_ok step ok s ops.
+  Proof.
+    intros Hok. induction ops as [|o ops IH]; intros s H; cbn [ops_ok forallb] in *; [exact I|].
+    apply andb_true_iff in H. destruct H as [H1 H2]. split; [apply Hok, H1|apply IH, H2].
+  Qed.
+  (* a projection of the state that a set of operations does not touch *)
+  Lemma run_keeps {B} (f : St -> B) (P : pop -> Prop) :
+    (forall s o, P o -> f (fst (step s o)) = f s) -> forall ops s, Forall P ops -> f (run step s ops) = f s.
+  Proof.
+    intros HP. induction ops as [|o ops IH]; intros s H; cbn [run]; [reflexivity|].
+    inversion H; subst. rewrite IH by assumption. apply HP. assumption.
+  Qed.
+
+  (* per pipe record the state knows: pipe_close, then the failing completion of the send in flight *)
+  Context {A : Type} (pipes : St -> list (N * A)) (held : A -> list pmsg) (cl dn : A -> A).
+  Definition pipe_script (l : list (N * A)) : list pop :=
+    flat_map (fun px => PPipeClose (fst px) :: if isnil (held (snd px)) then [] else [PSendDone (fst px) E_CLOSED]) l.
+  Hypothesis Hcl : forall s p x, kget p (pipes s) = Some x -> pipes (fst (step s (PPipeClose p))) = kset p (cl x) (pipes s).
+  Hypothesis Hdn : forall s p x, kget p (pipes s) = Some x -> pipes (fst (step s (PSendDone p E_CLOSED))) = kset p (dn x) (pipes s).
+  Hypothesis held_cl : forall x, held (cl x) = held x.
+  Hypothesis held_dn : forall x, held (dn x) = [].
+
+  Lemma closing_pipe_script l : forallb closing (pipe_script l) = true.
+  Proof.
+    induction l as [|[p x] l IH]; [reflexivity|]. cbn [pipe_script flat_map fst snd]. fold (pipe_script l).
+    destruct (isnil (held x)); cbn [app forallb closing andb]; exact IH.
+  Qed.
+
+  Lemma kget_app_notin p (a b : list (N * A)) : ~ In p (map fst a) -> kget p (a ++ b) = kget p b.
+  Proof.
+    induction a as [|[k v] a IH]; cbn [app kget map fst]; intros H; [reflexivity|].
+    destruct (N.eqb_spec k p); [exfalso; apply H; left; assumption|]. apply IH. intros Hi. apply H. right. exact Hi.
+  Qed.
+  Lemma kset_app_notin p y (a b : list (N * A)) : ~ In p (map fst a) -> kset p y (a ++ b) = a ++ kset p y b.
+  Proof.
+    induction a as [|[k v] a IH]; cbn [app kset map fst]; intros H; [reflexivity|].
+    destruct (N.eqb_spec k p); [exfalso; apply H; left; assumption|]. f_equal. apply IH. intros Hi. apply H. right. exact Hi.
+  Qed.
+
+  Lemma pipe_script_run : forall todo done s,
+    pipes s = done ++ todo -> NoDup (map fst (done ++ todo)) -> Forall (fun px => held (snd px) = []) done ->
+    Forall (fun px => held (snd px) = []) (pipes (run step s (pipe_script todo))).
+  Proof.
+    induction todo as [|[p x] todo IH]; intros done s E ND FD.
+    - cbn [pipe_script flat_map run]. rewrite E, app_nil_r. exact FD.
+    - cbn [pipe_script flat_map fst snd]. fold (pipe_script todo).
+      assert (Hp : ~ In p (map fst done)).
+      { rewrite map_app in ND. cbn [map fst] in ND. apply NoDup_remove_2 in ND. intros Hi. apply ND. apply in_or_app. left. exact Hi. }
+      assert (K0 : kget p (pipes s) = Some x).
+      { rewrite E, (kget_app_notin p done _ Hp). cbn [kget]. now rewrite N.eqb_refl. }
+      assert (E1 : pipes (fst (step s (PPipeClose p))) = (done ++ [(p, cl x)]) ++ todo).
+      { rewrite (Hcl s p x K0), E, (kset_app_notin p _ done _ Hp). cbn [kset]. rewrite N.eqb_refl, <- app_assoc. reflexivity. }
+      assert (NDk : forall y, NoDup (map fst ((done ++ [(p, y)]) ++ todo))).
+      { intros y. rewrite <- app_assoc. cbn [app]. rewrite map_app in *. exact ND. }
+      destruct (held x) as [|m0 r0] eqn:Hx; cbn [isnil app run].
+      + apply (IH (done ++ [(p, cl x)]) _ E1 (NDk _)).
+        apply Forall_app. split; [exact FD|]. constructor; [|constructor]. cbn [snd]. now rewrite held_cl.
+      + set (s1 := fst (step s (PPipeClose p))) in *.
+        assert (K1 : kget p (pipes s1) = Some (cl x)).
+        { rewrite E1, <- app_assoc, (kget_app_notin p done _ Hp). cbn [app kget]. now rewrite N.eqb_refl. }
+        assert (E2 : pipes (fst (step s1 (PSendDone p E_CLOSED))) = (done ++ [(p, dn (cl x))]) ++ todo).
+        { rewrite (Hdn s1 p _ K1), E1, <- !app_assoc, (kset_app_notin p _ done _ Hp). cbn [app kset]. now rewrite N.eqb_refl. }
+        apply (IH (done ++ [(p, dn (cl x))]) _ E2 (NDk _)).
+        apply Forall_app. split; [exact FD|]. constructor; [|constructor]. cbn [snd]. apply held_dn.
+  Qed.
+End CloseGeneric.
+
+Lemma ptx_all_empty {A} (h : A -> list pmsg) (l : list (N * A)) :
+  Forall (fun px => h (snd px) = []) l -> ptx h l = [].
+Proof.
+  induction 1 as [|px l Hx _ IH]; [reflexivity|]. cbn [ptx flat_map]. fold (ptx h l). now rewrite Hx, IH.
+Qed.
+
+(* ---------------- cooked SURVEYOR ---------------- *)
+(* the socket core's close sequence as the protocol sees it: every pipe the state knows gets its
+   pipe_close, every transport send still in flight fails (PSendDone p E_CLOSED), every open context
+   is closed (context c has key c + 1; key 0 is the socket's own), then the socket's own close *)
+Definition surv_ctx_script (l : list (N * sctx)) : list pop :=
+  map (fun kc => PCtxClose (fst kc - 1)) (filter (fun kc => negb (N.eqb (fst kc) 0)) l).
+Definition surv_close_script (s : surv) : list pop :=
+  pipe_script sp_held (sv_pipes s) ++ surv_ctx_script (sv_ctxs s) ++ [PSockClose].
+
+Theorem surv_close_drains : forall nbfix s, SLInv s ->
+  ops_ok (surv_step nbfix) surv_ok s (surv_close_script s) /\
+  drained view_surv (run (surv_step nbfix) s (surv_close_script s)).
+Proof.
+  intros nbfix s (I1 & I2 & I3). split.
+  - apply ops_ok_closing; [intros s0 o; destruct o; cbn; intros; try exact I; discriminate|].
+    unfold surv_close_script. rewrite !forallb_app, closing_pipe_script. cbn [andb forallb closing].
+    rewrite andb_true_r. unfold surv_ctx_script. induction (filter _ (sv_ctxs s)); cbn; auto.
+  - unfold surv_close_script. rewrite run_app.
+    set (s1 := run (surv_step nbfix) s (pipe_script sp_held (sv_pipes s))).
+    assert (F1 : Forall (fun px => sp_held (snd px) = []) (sv_pipes s1)).
+    { apply (pipe_script_run (surv_step nbfix) sv_pipes sp_held
+               (fun x => mkSpipe [] (sp_busy x) (sp_held x) true)
+               (fun x => mkSpipe (sp_q x) (sp_busy x) [] (sp_closed x))) with (done := []).
+      - intros s0 p x K. cbn [surv_step]. rewrite K. reflexivity.
+      - intros s0 p x K. cbn [surv_step]. rewrite K. reflexivity.
+      - reflexivity.
+      - reflexivity.
+      - reflexivity.
+      - exact I2.
+      - constructor. }
+    assert (E2 : sv_pipes (run (surv_step nbfix) s1 (surv_ctx_script (sv_ctxs s) ++ [PSockClose])) = sv_pipes s1).
+    { apply (run_keeps (surv_step nbfix) sv_pipes (fun o => (exists c, o = PCtxClose c) \/ o = PSockClose)).
+      - intros s0 o [[c ->]| ->]; cbn [surv_step ctx_abort].
+        + destruct (kget (ckey (Some c)) (sv_ctxs s0)); reflexivity.
+        + destruct (kget 0%N (sv_ctxs s0)); reflexivity.
+      - apply Forall_app. split; [|constructor; [right; reflexivity|constructor]].
+        unfold surv_ctx_script. apply Forall_forall. intros o Hi. apply in_map_iff in Hi. destruct Hi as [kc [<- _]]. left. eauto. }
+    split; [|split].
+    + cbn [v_tx view_surv VSurv.view]. rewrite E2. exact (ptx_all_empty sp_held _ F1).
+    + reflexivity.
+    + apply Permutation_refl.
+Qed.
+
+(* ---------------- raw SURVEYOR / raw RESPONDENT (no contexts) ---------------- *)
+Definition xsurv_close_script (s : xsurv) : list pop := pipe_script xp_held (xs_pipes s) ++ [PSockClose].
+Definition xresp_close_script (s : xresp) : list pop := pipe_script xp_held (xr_pipes s) ++ [PSockClose].
+
+Lemma raw_ok_closing pipes o : closing o = true -> raw_ok pipes o.
+Proof. destruct o; cbn; intros; try exact I; discriminate. Qed.
+Lemma closing_raw_script (l : list (N * xpipe)) : forallb closing (pipe_script xp_held l ++ [PSockClose]) = true.
+Proof. rewrite forallb_app, closing_pipe_script. reflexivity. Qed.
+
+Theorem xsurv_close_drains : forall fx s, XSInv s ->
+  ops_ok (xsurv_step fx) xsurv_ok s (xsurv_close_script s) /\
+  drained (VXsurv.view fx) (run (xsurv_step fx) s (xsurv_close_script s)).
+Proof.
+  intros fx s [I1 I2]. split.
+  - apply ops_ok_closing; [intros s0 o; apply raw_ok_closing|apply closing_raw_script].
+  - unfold xsurv_close_script. rewrite run_app.
+    set (s1 := run (xsurv_step fx) s (pipe_script xp_held (xs_pipes s))).
+    assert (F1 : Forall (fun px => xp_held (snd px) = []) (xs_pipes s1)).
+    { apply (pipe_script_run (xsurv_step fx) xs_pipes xp_held
+               (fun x => mkXpipe [] (xp_busy x) (xp_held x) true)
+               (fun x => mkXpipe (xp_q x) (xp_busy x) [] (xp_closed x))) with (done := []).
+      - intros s0 p x K. cbn [xsurv_step]. rewrite K. destruct (urq_drop_writer (xs_urq s0) p). reflexivity.
+      - intros s0 p x K. cbn [xsurv_step]. rewrite K. reflexivity.
+      - reflexivity.
+      - reflexivity.
+      - reflexivity.
+      - exact I1.
+      - constructor. }
+    cbn [run xsurv_step urq_close fst]. unfold drained.
+    cbn [v_tx v_att v_held v_fini VXsurv.view xs_pipes xs_urq]. split; [|split].
+    + exact (ptx_all_empty xp_held _ F1).
+    + reflexivity.
+    + unfold VXsurv.urq_held. cbn [uq_q uq_writers map app]. rewrite !app_nil_r. apply Permutation_refl.
+Qed.
+
+Theorem xresp_close_drains : forall fx s, XRInv s ->
+  ops_ok (xresp_step fx) xresp_ok s (xresp_close_script s) /\
+  drained view_xresp (run (xresp_step fx) s (xresp_close_script s)).
+Proof.
+  intros fx s [I1 I2]. split.
+  - apply ops_ok_closing; [intros s0 o; apply raw_ok_closing|apply closing_raw_script].
+  - unfold xresp_close_script. rewrite run_app.
+    set (s1 := run (xresp_step fx) s (pipe_script xp_held (xr_pipes s))).
+    assert (F1 : Forall (fun px => xp_held (snd px) = []) (xr_pipes s1)).
+    { apply (pipe_script_run (xresp_step fx) xr_pipes xp_held
+               (fun x => mkXpipe [] (xp_busy x) (xp_held x) true)
+               (fun x => mkXpipe (xp_q x) (xp_busy x) [] (xp_closed x))) with (done := []).
+      - intros s0 p x K. cbn [xresp_step]. rewrite K. destruct (urq_drop_writer (xr_urq s0) p). reflexivity.
+      - intros s0 p x K. cbn [xresp_step]. rewrite K. reflexivity.
+      - reflexivity.
+      - reflexivity.
+      - reflexivity.
+      - exact I1.
+      - constructor. }
+    cbn [run xresp_step urq_close fst]. unfold drained.
+    cbn [v_tx v_att v_held v_fini view_xresp VXresp.view xr_pipes xr_urq]. split; [|split].
+    + exact (ptx_all_empty xp_held _ F1).
+    + reflexivity.
+    + unfold VXsurv.urq_held. cbn [uq_q uq_writers map app]. rewrite !app_nil_r. apply Permutation_refl.
+Qed.
+
+Print Assumptions surv_close_drains.
+Print Assumptions xsurv_close_drains.
+Print Assumptions xresp_close_drains.
